@@ -214,9 +214,19 @@ Definition belongs (h : hop) (kp : key) (c : child) : bool :=
   negb (all_zero kp) && key_eqv kp (c_key c) && child_ok h c.
 Definition attach (h : hop) (ps : list key) (cs : list child) : outs :=
   map (fun kp => map c_uid (filter (belongs h kp) cs)) ps.
+(* many2many: a join row links them.  Preload treats an all-zero TARGET key like an all-zero parent
+   key ("no key": GetIdentityFieldValuesMap skips it); Association().Find joins in SQL and does not. *)
+Definition linked (skip_zero_target : bool) (js : list jrow) (kp : key) (c : child) : bool :=
+  existsb (fun j => (negb skip_zero_target || negb (all_zero (snd j)))
+                    && key_eqv kp (fst j) && key_eqv (snd j) (c_key c)) js.
+(* association Joins compare in SQL: no "zero key = no key" convention there *)
+Definition belongs_sql (h : hop) (kp : key) (c : child) : bool := key_eqv kp (c_key c) && child_ok h c.
+Definition attach_sql (h : hop) (ps : list key) (cs : list child) : outs :=
+  map (fun kp => map c_uid (filter (belongs_sql h kp) cs)) ps.
 Definition belongs_m2m (h : hop) (js : list jrow) (kp : key) (c : child) : bool :=
-  negb (all_zero kp) && child_ok h c
-  && existsb (fun j => key_eqv kp (fst j) && key_eqv (snd j) (c_key c)) js.
+  negb (all_zero kp) && child_ok h c && linked true js kp c.
+Definition belongs_m2m_find (h : hop) (js : list jrow) (kp : key) (c : child) : bool :=
+  negb (all_zero kp) && child_ok h c && linked false js kp c.
 Definition attach_m2m (h : hop) (ps : list key) (js : list jrow) (cs : list child) : outs :=
   map (fun kp => map c_uid (filter (belongs_m2m h js kp) cs)) ps.
 (* a Set field keeps the last assignment *)
